@@ -22,7 +22,11 @@ EXPLANATION = (
     "the result at the end; (SSAID) single-assignment ids: a counter used as the id of a "
     "new intermediate starts at the number of inputs and is incremented exactly once per "
     "use on every CFG path of the loop; get_ssa_path's closed form is checked as a linear "
-    "expression relative to the append."
+    "expression relative to the append. "
+    "Later rounds added: "
+    "(EDGE) edge paths are forwarded unfiltered and converted carrier-set by carrier-set; "
+    "(COUNT) converters are told the number of inputs wherever the path derives from a "
+    "caller's parameter. "
 )
 ASSUMPTIONS = ("list.pop(i) shifts later positions down by one; bisect arithmetic is not decided",)
 
